@@ -5,7 +5,7 @@ use crate::{
   StdResult,
 };
 use laythe_core::{
-  constants::{INDEX_GET, INDEX_SET}, hooks::{GcHooks, Hooks}, if_let_obj, list, managed::{DebugHeap, DebugWrap, Trace}, module::Module, object::{Enumerate, Enumerator, LyNative, LyStr, Map, Native, NativeMetaBuilder, ObjectKind}, signature::{Arity, ParameterBuilder, ParameterKind}, to_obj_kind, utils::use_sentinel_nan, val, value::{Value, VALUE_NIL}, Call, LyError, ObjRef, Ref
+  constants::{INDEX_GET, INDEX_SET}, hooks::{GcHooks, Hooks}, if_let_obj, list, managed::{DebugHeap, DebugWrap, Trace}, module::Module, object::{Enumerate, Enumerator, List, LyNative, LyStr, Map, Native, NativeMetaBuilder, ObjectKind}, signature::{Arity, ParameterBuilder, ParameterKind}, to_obj_kind, utils::use_sentinel_nan, val, value::{Value, VALUE_NIL}, Call, LyError, ObjRef, Ref
 };
 use std::io::Write;
 
@@ -129,18 +129,30 @@ impl LyNative for MapStr {
       return Call::Ok(val!(hooks.manage_str("{}")));
     }
 
-    // buffer for temporary strings
-    let mut strings: Vec<String> = Vec::with_capacity(map.len());
-
+    // an element's str() may be user code that writes to this map (any insert may move its
+    // table) or removes entries from it: walk a rooted copy of the entries
+    let mut flat: Vec<Value> = Vec::with_capacity(map.len() * 2);
     for (key, value) in map.iter() {
+      flat.push(*key);
+      flat.push(*value);
+    }
+    let entries = List::new(hooks.manage_obj(list!(&flat[..])));
+    hooks.push_root(entries);
+
+    // buffer for temporary strings
+    let mut strings: Vec<String> = Vec::with_capacity(flat.len() / 2);
+
+    for index in (0..flat.len()).step_by(2) {
       let mut kvp_string = String::new();
 
-      format_map_entry(*key, self.method_name, self.error, &mut kvp_string, hooks)?;
+      format_map_entry(entries[index], self.method_name, self.error, &mut kvp_string, hooks)?;
       kvp_string.push_str(": ");
-      format_map_entry(*value, self.method_name, self.error, &mut kvp_string, hooks)?;
+      format_map_entry(entries[index + 1], self.method_name, self.error, &mut kvp_string, hooks)?;
 
       strings.push(kvp_string)
     }
+
+    hooks.pop_roots(1);
 
     // format and join strings
     let formatted = format!("{{ {} }}", strings.join(", "));
